@@ -18,7 +18,14 @@ sys.path.insert(0, os.path.dirname(os.path.abspath(__file__)))
 import common
 from common import VERIF, LEAN
 
+SIM = ["Nsl/Model/Map.lean", "Nsl/Model/Val.lean", "Nsl/Model/IR.lean", "Nsl/Model/Core.lean", "Nsl/Model/ScalarCore.lean", "Nsl/Model/Lower.lean",
+       "Nsl/Model/VM.lean", "Nsl/Model/CoreSem.lean", "Nsl/Proofs/VMSteps.lean", "Nsl/Proofs/StepLemmas.lean", "Nsl/Proofs/LowerShape.lean",
+       "Nsl/Proofs/SimBase.lean", "Nsl/Proofs/SimExpr.lean", "Nsl/Proofs/SimStmt.lean", "Nsl/Proofs/SimMain.lean", "Nsl/Props/C01.lean"]
+
 PROPS = {
+    "C01": ("p_c01", "Nsl.Props.C01", [], SIM),
+    "C03": ("p_c03", "Nsl.Props.C03", [], SIM + ["Nsl/Props/C03.lean"]),
+    "C15": ("p_c15", "Nsl.Props.C15", [], SIM + ["Nsl/Props/C15.lean"]),
     # id: (python module, theorem module, [table-obligation modules], model source files to audit)
     "C08": ("p_c08", "Nsl.Props.C08", ["Nsl.Props.GenC08"], ["Nsl/Model/Prec.lean", "Nsl/Proofs/Prec.lean", "Nsl/Props/C08.lean", "Nsl/Props/GenC08.lean"]),
     "C09": ("p_c09", "Nsl.Props.C09", ["Nsl.Props.GenC09"], ["Nsl/Model/Types.lean", "Nsl/Proofs/Types.lean", "Nsl/Props/C09.lean", "Nsl/Props/GenC09.lean"]),
